@@ -522,6 +522,23 @@ func registerEnvIntrinsics() {
 		}
 		return r, true
 	}
+	// ber.ParseInt64 on content of symbolic length: one fork (longer than 8
+	// octets -> error) and the defining term otherwise, instead of nine loop
+	// unrollings.  Concrete-length input runs the real SSA.
+	I[berPath+".ParseInt64"] = func(in *Interp, fr *frame, args []Value) (Value, bool) {
+		sb, ok := args[0].(SymBytes)
+		if !ok {
+			return nil, false
+		}
+		if _, ok := sb.s.ConcreteLen(); ok {
+			return nil, false
+		}
+		tooLong := in.tt.BVCmp("bvugt", sb.s.LenTerm(in.tt), in.tt.BVConst(8, 64))
+		if in.branch(boolVal(tooLong), "ParseInt64 length") {
+			return Tuple{Int(0), in.newError(CStr("integer too large"), nil)}, true
+		}
+		return Tuple{in.fromTerm(in.parseIntOf(sb.s), types.Typ[types.Int64]), Iface{}}, true
+	}
 	I[berPath+".encodeInteger"] = func(in *Interp, fr *frame, args []Value) (Value, bool) {
 		if !in.summaries["encodeInteger"] {
 			return nil, false
